@@ -280,6 +280,21 @@ def r4(ctx, R):
     if ("self.is_dynamic()", "T") not in vals.get("self.parent.dynamic_cache", set()) or \
             not any("WeakValueDictionary" in k for k in vals):
         R.bad(ip, ip.node, "handle cache is not shared down the dynamic tree / not weak", stmt="dynamic_cache =")
+    ics = ctx.func("ItemSpaceImpl._init_child_spaces")
+    R.inst("_init_child_spaces: each child's handle is cached under its own parent's key + (name,)")
+    dv = [n_ for n_ in walk_local(ics.node) if isinstance(n_, ast.Assign) and norm(n_.targets[0]) == "dkey"]
+    lp = [n_ for n_ in walk_local(ics.node) if isinstance(n_, ast.For)]
+    ws = [st for st, t in q.subscript_writes(ics, "dynamic_cache")]
+    if len(dv) != 1 or norm(dv[0].value) != "space.dynamic_key + (name,)" or not lp or \
+            not any(x is dv[0] for x in ast.walk(lp[0])):
+        R.bad(ics, ics.node, "child spaces with the same name in different branches share one handle-cache slot: "
+                             "S[n].A.X and S[n].B.X become the same object", stmt="dkey = space.dynamic_key + (name,)")
+    if not ws or norm(ws[0].targets[0].slice) != "dkey" or norm(ws[0].value) != "child.interface":
+        R.bad(ics, ics.node, "child handle is not stored under its key", stmt="dynamic_cache[dkey] = child.interface")
+    mk = q.calls(ics, name="DynamicSpaceImpl")
+    if mk and norm(kw(mk[0], "cache") or ast.Constant(0)) != "cache" or \
+            [norm(v) for v in assigned_value(ics, "cache")] != ["self.dynamic_cache.get(dkey, None)"]:
+        R.bad(ics, ics.node, "child is not re-attached to the handle cached under its own key", stmt="cache = dynamic_cache.get(dkey)")
     dk = ctx.func("ItemSpaceImpl.dynamic_key")
     R.inst("ItemSpaceImpl.dynamic_key = parent's key + (argvalues_if,)")
     rv = sorted(norm(r_.value) for r_ in q.returns(dk))
